@@ -400,7 +400,7 @@ Definition pc_congruence (a b : pcont) : M (appid * appid) :=
   let bij2 := snd sb in
   dom m <- with_ctr (compose_fresh (inverse_nocheck bij2) bij1);
   (* b.node.elem.apply_slotmap_fresh(&m): only its fresh draws matter *)
-  dom _ <- with_ctr (apply_slotmap_fresh true m (fst b));
+  dom _ <- with_ctr (apply_slotmap_fresh false m (fst b));
   dom bm <- with_ctr (compose_fresh (am (snd b)) m);
   ret (snd a, {| aid := aid (snd b); am := bm |}).
 
@@ -624,7 +624,7 @@ Definition mk_singleton_class (syn_enode : node) : M appid :=
   dom fresh_to_old <- with_ctr (bijection_from_fresh_to old_slots);
   let old_to_fresh := inverse_nocheck fresh_to_old in
   let fresh_slots := values old_to_fresh in
-  dom syn_fresh <- with_ctr (apply_slotmap_fresh true old_to_fresh syn_enode);
+  dom syn_fresh <- with_ctr (apply_slotmap_fresh false old_to_fresh syn_enode);
   dom i <- alloc_eclass fresh_slots syn_fresh;
   dom t <- lift (wshape syn_fresh);
   dom _ <- raw_add_to_class i t i;
